@@ -45,6 +45,19 @@ CHECKS = {
             "The sampling rate (None, 0, 1, every N >= 2) and each random draw are solver variables; for every event script of a generator-like "
             "frame within the bound the logged traces are exactly those of the calls sampled at their first call event, undistorted, with no residue.",
             TRUST + "random.randrange is a stub constrained only by its contract; uniformity is trusted for the statistical reading.", "DESIGN.md#C18"),
+    "C03": (True, "fault_enumeration",
+            "symbolic fault schedules (one solver bool per fault site) through the real CallTracer.__call__ and trace_calls (CrossHair+z3)",
+            "Claimed in part. Every combination of injected faults (type collection on arguments / return values, objects whose inspection "
+            "raises, function lookup, logger.log) x 6 exception classes x 3 event scripts is decided symbolically: nothing escapes __call__. "
+            "All 2^3 exit scenarios of trace_calls (and of monkeytype.trace(config)) restore the previous profiler before flushing exactly once.",
+            TRUST + "The clauses 'same results with and without tracing' and 'never executes user-defined code' are NOT claimed: the engine "
+            "replaces the very builtins whose hook invocations would have to be observed.", "DESIGN.md#C03"),
+    "C17": (True, "model_checking",
+            "symbolic execution (CrossHair+z3): filter verdict symbolic bool, func.__module__ symbolic str, default_code_filter on tape-composed paths vs an independent path predicate",
+            "Claimed in part. The custom-filter gate and the __main__ exclusion are decided for every verdict / every module-name string "
+            "(the solver finds e.g. '__main__\\x00' against a prefix test); the default filter is compared with an independent string-based "
+            "predicate on all file names composed from library roots, textual siblings, components and allow-lists within the bound.",
+            TRUST + "Symlinked roots, lru_cache staleness and enumeration of all installed code objects are outside the claim.", "DESIGN.md#C17"),
 }
 
 NOT_APPLICABLE = {
